@@ -1,4 +1,7 @@
+#[cfg(not(gamedig_verif))]
 use std::collections::HashMap;
+#[cfg(gamedig_verif)]
+use crate::verif_hook::collections::HashMap;
 
 use crate::protocols::types::{CommonPlayer, CommonResponse, ExtraRequestSettings, GatherToggle, GenericPlayer};
 use crate::GDErrorKind::UnknownEnumCast;
@@ -331,7 +334,10 @@ impl From<ExtraRequestSettings> for GatheringSettings {
 pub mod game {
     use super::{Server, ServerPlayer};
     use crate::protocols::valve::types::get_optional_extracted_data;
+    #[cfg(not(gamedig_verif))]
     use std::collections::HashMap;
+    #[cfg(gamedig_verif)]
+    use crate::verif_hook::collections::HashMap;
 
     #[cfg(feature = "serde")]
     use serde::{Deserialize, Serialize};
